@@ -57,6 +57,27 @@ M = {
                                    "  fcppt::algorithm::loop(fcppt::math::int_range_count<R * C>{}, [this, &_value]<fcppt::math::size_type Index>(fcppt::tag<fcppt::math::size_constant<Index>>) { storage_[Index] *= _value; });\n"),
 }
 
+# third set: the neighbouring API, the converting constructor, three EQUIVALENT mutants that must not be flagged
+M.update({
+    # the converting constructor swaps the first two elements when it copies out of a MUTABLE view (row view of a non-const matrix,
+    # mutable buffer view); copies out of const views and static objects are right
+    "copy_from_mutable_view_swaps": ("detail/copy.hpp",
+                                     "linear_access<fcppt::cast::size<fcppt::math::size_type>(Index)>(",
+                                     "linear_access<fcppt::cast::size<fcppt::math::size_type>((std::is_same_v<typename Arg::storage_type::reference, typename Arg::value_type &> && !fcppt::math::is_static_storage<typename Arg::storage_type>::value && Result::storage_size::value >= 2U) ? (Index == 0U ? 1U : Index == 1U ? 0U : Index) : Index)>("),
+    # the defect that was fixed before: quotient + 1 whenever there is a remainder (wrong when the exact quotient is negative)
+    "ceil_div_signed_ignores_signs": ("ceil_div_signed.hpp", "return remainder != zero && ((remainder < zero) == (_divisor < zero))", "return remainder != zero"),
+    "infinity_norm_no_abs": ("matrix/infinity_norm.hpp", "std::abs(fcppt::math::matrix::at_r_c<Row, Col>(_matrix));", "fcppt::math::matrix::at_r_c<Row, Col>(_matrix);"),
+    "contents_starts_at_zero_n4": ("dim/contents.hpp", "      fcppt::literal<T>(1),", "      fcppt::literal<T>(N == 4U ? 0 : 1),"),
+    "unit_le_axis": ("vector/unit.hpp", "_index == _axis ? 1 : 0", "(_index == _axis || (_axis == 3U && _index == 0U)) ? 1 : 0"),
+    "transform_direction_w_one": ("matrix/transform_direction.hpp", "fcppt::math::vector::push_back(_vector, fcppt::literal<T>(0))", "fcppt::math::vector::push_back(_vector, fcppt::literal<T>(1))"),
+    "vector_minus_dim_reversed_n3": ("vector/dim.hpp", "        return _left_elem - _right_elem;", "        return N == 3U ? _right_elem - _left_elem : _left_elem - _right_elem;"),
+    # equivalent mutants (must NOT be flagged)
+    "EQUIV_ceil_div_sign_of_dividend": ("ceil_div_signed.hpp", "((remainder < zero) == (_divisor < zero))", "((_dividend < zero) == (_divisor < zero))"),
+    "EQUIV_infinity_norm_starts_at_zero": ("matrix/infinity_norm.hpp", "      std::numeric_limits<T>::min(),", "      fcppt::literal<T>(0),"),
+    "EQUIV_is_quadratic_adjacent": ("dim/is_quadratic.hpp", "{ return fcppt::math::dim::at<Index>(_dim) == _first; });",
+                                    "{ (void)_first; return fcppt::math::dim::at<Index>(_dim) == fcppt::math::dim::at<(Index == 0U ? 0U : Index - 1U)>(_dim); });"),
+})
+
 
 def apply(name, tree):
     f, old, new = M[name]
